@@ -16,7 +16,8 @@ Oracles (model = treesim.MTree + the shelve model below, no breezy code):
 * after unshelving the top shelf onto the unchanged result: content and versioning equal the
   state before that shelve, no conflicts;
 * shelf ids: a new shelf gets an id above every active one, ids are unique,
-  `active_shelves()` is what the model says after every step and after reopening.
+  `active_shelves()` / `last_shelf()` are what the model says after every step and after
+  reopening (also with ten or more shelves alive), the file of a live shelf never changes.
 * fault (a share of the runs): one file-system call of the transform that removes the shelved
   changes fails (simkit.osseam, OSError before the call): afterwards the tree is either exactly
   as before or completely shelved, and the shelf file, which is written before the transform
@@ -40,8 +41,10 @@ RULE = (
     "one case = one seeded run: a namespace of 3-6 paths, a model-generated history (grow, commit, 2-12 pending changes incl. "
     "multi-hunk edits of committed texts) and a shelf script of 2-7 steps (shelve a seeded consistent subset of items/hunks | "
     "unshelve the top shelf | delete a shelf | reopen); non-trivial = at least one shelve of a proper or full selection was "
-    "executed and compared AND at least one unshelve was compared with the pre-shelve state; distinct = distinct event-log "
-    "digests of such runs"
+    "executed and compared AND at least one unshelve was compared with the pre-shelve state; 8% of the runs instead edit 11-13 "
+    "committed texts and shelve them one file (or hunk) at a time until 10-12 shelves are alive, then shelve again / unshelve the newest / "
+    "delete + re-shelve / reopen (ids, last_shelf() and the bytes of every live shelf file are checked after each step); distinct = "
+    "distinct event-log digests of such runs"
 )
 COMPONENTS = {
     "real": [
@@ -95,6 +98,7 @@ ISOLATION = "thread"
 P_UNGUARDED = float(os.environ.get("VERIF_UNGUARDED", "0") or 0)
 P_LIFT = 0.2
 P_FAULT = 0.25
+P_MANY = 0.08  # share of runs that keep ten or more shelves alive at once
 
 FILE, DIR, LINK = T.FILE, T.DIR, T.LINK
 ROOT_ID = T.ROOT_ID
@@ -712,12 +716,105 @@ def gen_script(rng, model, guards, fault):
     return script
 
 
+def gen_many(rng, plan):
+    """Ten or more shelves alive at once: 11-13 committed texts, each edited, shelved one file
+    at a time (sometimes one hunk at a time); then, with >= 10 live shelves, shelve again /
+    unshelve the newest / delete one and shelve again / reopen; finally unshelve the rest."""
+    guards = guards_of(plan)
+    k = rng.randint(11, 13)
+    names = ["f%02d" % i for i in range(k)]
+    plan["names"] = names
+    model = T.MTree("bzr")
+    g = T.Gen(rng, model, names)
+    ops = []
+
+    def push(op):
+        if model.classify(op) == "ok":
+            m_apply(model, op)
+            ops.append(op)
+
+    for nm in names:
+        push({"o": "write", "p": nm, "n": g.fresh(), "tx": {"new": {"head": rng.choice([8, 1]), "tail": rng.choice([8, 2]), "nonl": rng.random() < 0.2, "cnt": [rng.choice([1, 1, 2]) for _ in range(NR)]}, "pad": 0}})
+    push({"o": "smart_add", "p": "", "n": g.fresh()})
+    n = g.fresh()
+    push({"o": "commit", "paths": None, "rev": "rev-%d" % n, "t": 1700000000 + n})
+    for nm in names:
+        op = enrich_write(rng, model, {"o": "write", "p": nm, "n": g.fresh()})
+        push(op)
+    if rng.random() < 0.4:
+        a = rng.choice(names)
+        push({"o": "rename", "p": a, "to": "r" + a})
+    plan["ops"] = ops
+    # the script, simulated on copies of the model
+    m = mcopy(model)
+    script = []
+    stack = []  # [id, clean, pre-state]
+    bids = {e[0]: q for q, e in m.basis.items()}
+
+    def shelve_one():
+        nonlocal m
+        items = sorted(items_of(m))
+        rng.shuffle(items)
+        for it in items:
+            sel = {it}
+            hunks = {}
+            if it[0] == "text" and rng.random() < 0.4:
+                wids = {e[0]: q for q, e in m.inv.items()}
+                regs = changed_regions(m.basis[bids[it[1]]][2], m.disk[wids[it[1]]][1])
+                if regs and len(regs) > 1:
+                    hunks[it[1]] = set(rng.sample(range(len(regs)), rng.randint(1, len(regs) - 1)))
+            try:
+                m2 = after_shelve(m, sel, hunks, guards)
+            except Unmodelled:
+                continue
+            nid = max([s[0] for s in stack], default=0) + 1
+            stack.append([nid, True, m])
+            m = m2
+            script.append({"a": "shelve", "sel": [[it[0], it[1].decode()]], "hunks": {f.decode(): sorted(v) for f, v in hunks.items()}})
+            return True
+        return False
+
+    first = rng.randint(10, k - 1)
+    while len(stack) < first:
+        if not shelve_one():
+            break
+        if rng.random() < 0.1:
+            script.append({"a": "reopen"})
+    for _ in range(rng.randint(3, 7)):
+        r = rng.random()
+        if r < 0.45:
+            shelve_one()
+        elif r < 0.65:
+            if stack and stack[-1][1]:
+                _i, _c, pre = stack.pop()
+                m = pre
+                script.append({"a": "unshelve"})
+        elif r < 0.85:
+            if stack:
+                i = rng.randrange(max(0, len(stack) - 3), len(stack))
+                script.append({"a": "delete", "id": stack[i][0]})
+                for st in stack[:i]:
+                    st[1] = False
+                del stack[i]
+                shelve_one()
+        else:
+            script.append({"a": "reopen"})
+    while stack and stack[-1][1] and rng.random() < 0.9:
+        stack.pop()
+        script.append({"a": "unshelve"})
+    plan["shelf"] = script
+    plan["many"] = 1
+    return plan
+
+
 def generate(rng, tier):
     names = T.make_namespace(rng)
     unguarded = choose_unguarded(rng)
     plan = {"names": names}
     if unguarded:
         plan["unguarded"] = unguarded
+    if rng.random() < P_MANY:
+        return gen_many(rng, plan)
     model = T.MTree("bzr")
     plan["ops"] = gen_history(rng, model, names)
     plan["shelf"] = gen_script(rng, model, guards_of(plan), rng.random() < P_FAULT)
@@ -1103,10 +1200,32 @@ def execute(sim, plan):
     stack = []  # [id, clean, pre-state model, selection]
     compared_shelve = compared_unshelve = 0
 
+    shelf_sha = {}  # shelf id -> sha1 of the shelf file when it was written
+
+    def shelf_bytes(i):
+        try:
+            with open(os.path.join(root, ".bzr", "checkout", "shelf", "shelf-%d" % i), "rb") as f:
+                return hashlib.sha1(f.read()).hexdigest()
+        except FileNotFoundError:
+            return None
+
     def check_ids(where):
-        got = tree.get_shelf_manager().active_shelves()
+        manager = tree.get_shelf_manager()
+        got = manager.active_shelves()
         if got != sorted(manager_ids):
             fail(sim, "shelf_ids", [where], "%s: active_shelves() = %r, model %r" % (where, got, sorted(manager_ids)))
+        last = manager.last_shelf()
+        if last != (max(manager_ids) if manager_ids else None):
+            fail(sim, "shelf_ids", ["last"], "%s: last_shelf() = %r while %r are active" % (where, last, sorted(manager_ids)))
+        for i in sorted(manager_ids):
+            if i not in shelf_sha:
+                shelf_sha[i] = shelf_bytes(i)
+            elif shelf_bytes(i) != shelf_sha[i]:
+                fail(sim, "shelf_changed", [where], "%s: the file of shelf %d changed (or vanished) although the shelf was not deleted; active %r" % (where, i, sorted(manager_ids)))
+        for i in [i for i in shelf_sha if i not in manager_ids]:
+            del shelf_sha[i]
+        if len(manager_ids) >= 10:
+            sim.probe("live_shelves_10plus")
 
     for j, st in enumerate(plan.get("shelf", [])):
         a = st["a"]
@@ -1188,6 +1307,9 @@ def execute(sim, plan):
                 continue
             sid, _clean, pre, sel = stack.pop()
             types = sorted({t for t, _f in sel})
+            default = tree.get_shelf_manager().last_shelf()
+            if default != sid:
+                fail(sim, "shelf_ids", ["default"], "unshelve without an id would take shelf %r, the newest shelf is %d (active %r)" % (default, sid, sorted(manager_ids)))
             try:
                 do_unshelve(tree, sid)
             except Exception as e:  # noqa: BLE001
